@@ -30,7 +30,7 @@ type World struct {
 	fileOf   map[*ast.FuncDecl]*packages.Package
 	callers  map[*ssa.Function][]ssa.Instruction // static call sites + MakeClosure sites
 	escapes  map[*ssa.Function][]ssa.Instruction // function used as a value (not called)
-	allFuncs []*ssa.Function                      // every pithos function incl. anonymous
+	allFuncs []*ssa.Function                     // every pithos function incl. anonymous
 }
 
 func loadWorld(repo string) (*World, error) {
